@@ -43,11 +43,12 @@ def setup():
     return state
 
 
-def do_run(step, state, want_trace, want_snap, live):
+def do_run(step, state, want_trace, want_snap, live, opts=None, invoke=None):
     from src.scenarios.run_model_no_trade import ScenarioRunnerNoTrade
     # the caller's dictionary: ONE object per preset and process, reused by every step that names the preset
     # (as run_many_options / the yaml loop do); it is never repaired here, so a run that modifies it leaks
-    opts = live[step["preset"]]
+    if opts is None:
+        opts = live[step["preset"]]
     opts_fp = T.fingerprint(opts)
     opts_before = copy.deepcopy(opts)
     countries = list(step["countries"])
@@ -60,10 +61,13 @@ def do_run(step, state, want_trace, want_snap, live):
     results = {}
     try:
         with quiet():
-            r = ScenarioRunnerNoTrade().run_model_no_trade(
-                title="c14", create_pptx_with_all_countries=False, show_country_figures=False,
-                show_map_figures=False, add_map_slide_to_pptx=False, scenario_option=opts, countries_list=countries,
-                return_results=True)
+            if invoke is not None:
+                r = invoke()
+            else:
+                r = ScenarioRunnerNoTrade().run_model_no_trade(
+                    title="c14", create_pptx_with_all_countries=False, show_country_figures=False,
+                    show_map_figures=False, add_map_slide_to_pptx=False, scenario_option=opts, countries_list=countries,
+                    return_results=True)
         results = r[3]
         out["ok"] = True
         out["net_pop"] = float(r[1]).hex()
@@ -89,6 +93,52 @@ def do_run(step, state, want_trace, want_snap, live):
     if want_snap:
         out["snapdiff"] = T.snap_diff(before, T.snapshot())
     return out, results
+
+
+def do_yaml(group, state, want_trace, want_snap, live, newtag):
+    """the steps of one group are executed by ONE call of run_scenarios_from_yaml (one simulation per step, all with the
+    same country list), as `python run_scenarios_from_yaml.py ... file.yaml` would; the loop's calls of run_model_no_trade
+    are intercepted only to ask for the results back (return_results=True) and to keep CSVs out of the repository"""
+    import src.scenarios.run_scenarios_from_yaml as ry
+    from src.scenarios.run_model_no_trade import ScenarioRunnerNoTrade
+    countries = list(group[0]["countries"])
+    sims = {}
+    for st in group:
+        d = {k: v for k, v in live[st["preset"]].items() if k != "NMONTHS"}
+        d["title"] = "c14"
+        sims["sim_" + st["id"]] = d
+    config = {"settings": {"countries": countries if len(countries) > 1 else countries[0], "NMONTHS": group[0]["nmonths"]},
+              "simulations": sims}
+    config_fp = T.fingerprint({k: {a: b for a, b in v.items() if a != "NMONTHS"} for k, v in sims.items()})
+    outs, todo = [], list(group)
+    orig = ScenarioRunnerNoTrade.run_model_no_trade
+
+    def patched(self_, **kw):
+        st = todo.pop(0)
+        T.REC.tag = newtag()
+        kw2 = dict(kw, return_results=True, save_all_results=False)
+        o, results = do_run(st, state, want_trace, want_snap, live, opts=kw["scenario_option"], invoke=lambda: orig(self_, **kw2))
+        o["via"] = "yaml"
+        outs.append((o, results))
+        if not o["ok"]:
+            raise RuntimeError("c14: run failed inside the yaml loop: " + o.get("err", ""))
+        return [None, 0, 0, results]
+
+    ScenarioRunnerNoTrade.run_model_no_trade = patched
+    try:
+        with quiet():
+            ry.run_scenarios_from_yaml(config, False, False, False)
+    except BaseException as e:  # noqa: BLE001
+        for st in todo:
+            outs.append(({"id": st["id"], "kind": "run", "countries": countries, "ok": False, "results": {}, "via": "yaml",
+                          "err": "not reached: " + type(e).__name__, "options_unchanged": True, "secs": 0}, {}))
+    finally:
+        ScenarioRunnerNoTrade.run_model_no_trade = orig
+    after_fp = T.fingerprint({k: {a: b for a, b in v.items() if a != "NMONTHS"} for k, v in config["simulations"].items()})
+    if after_fp != config_fp and outs:
+        outs[-1][0]["options_unchanged"] = False
+        outs[-1][0]["options_diff"] = {"config_data": ["<as loaded>", "<modified beyond the NMONTHS key the loop adds>"]}
+    return outs
 
 
 def do_overwrite(step, kept):
@@ -136,9 +186,29 @@ def run(payload):
     steps_out = []
     kept = {}          # step id / country -> Interpreter (to detect retroactive modification of earlier results)
     last = {}
-    tag = 0
-    for step in payload["steps"]:
-        tag += 1
+    counter = {"tag": 0}
+
+    def newtag():
+        counter["tag"] += 1
+        return counter["tag"]
+
+    steps = payload["steps"]
+    i = 0
+    while i < len(steps):
+        step = steps[i]
+        if step["kind"] == "run" and step.get("yaml_group") is not None:
+            j = i
+            while j < len(steps) and steps[j]["kind"] == "run" and steps[j].get("yaml_group") == step["yaml_group"]:
+                j += 1
+            for o, results in do_yaml(steps[i:j], state, want_trace, want_snap, live, newtag):
+                for cname, interp in results.items():
+                    kept[o["id"] + "/" + cname] = interp
+                    last[cname] = interp
+                steps_out.append(o)
+            T.REC.tag = 0
+            i = j
+            continue
+        tag = newtag()
         T.REC.tag = tag
         if step["kind"] == "run":
             o, results = do_run(step, state, want_trace, want_snap, live)
@@ -150,6 +220,7 @@ def run(payload):
             o["tag"] = tag
         T.REC.tag = 0
         steps_out.append(o)
+        i += 1
     # earlier results must not have been modified by later steps
     for o in steps_out:
         if o["kind"] == "run":
